@@ -1,5 +1,7 @@
 import OW.Proofs.NdC01Ops
 import OW.Proofs.NdC01Apply
+import OW.Proofs.NdC01Slice
+import OW.Proofs.NdC01Seq
 /-!
 C01 — array slices are live strided views that compose, with exact write footprints.
 
@@ -125,6 +127,15 @@ theorem get_slice_inbounds {α : Type} {h : Heap α} {a b : Arr} {loc dims : Idx
   obtain ⟨p, x, hp, _, _, hc, hg⟩ := get_eq hr hok (ok.inBounds hi)
   exact ⟨p, x, hp, hc, by rw [(get_slice h hr ok hs i hi.length).1, hg], hg⟩
 
+/-- **get_reads_cell.** `Get` through a reachable array at an in-bounds index never panics and returns the storage cell
+`base + Index(i)` of storage `sid` — so every footprint theorem below, stated on storage cells, says what every view
+overlapping the written cells reads afterwards. -/
+theorem get_reads_cell {α : Type} {h : Heap α} {a : Arr} (hr : Reach a.v) (hok : ArrOK h a) {i : Idx}
+    (hi : InBounds i a.v.dims) :
+    ∃ p x, a.v.index i = .ok p ∧ 0 ≤ p ∧ p < product a.v.orig ∧
+      cell h a.sid (a.base + p).toNat = some x ∧ get h a i = .ok x :=
+  get_eq hr hok hi
+
 /-- **slice_arr_total.** `Slice` with an in-bounds request never panics and preserves reachability and the window
 conditions. -/
 theorem slice_arr_total {α : Type} {h : Heap α} {a : Arr} {loc dims : Idx} {step : Option Idx}
@@ -222,6 +233,113 @@ theorem apply_footprint {α : Type} {h : Heap α} {a : Arr} (hr : Reach a.v) (ho
       have := h2 j hj _ (index_addr g _ (by rw [hj'.length]))
       simpa [runLoc] using this
 
+/-- **apply_empty.** `Apply` with no values at an in-bounds `loc` (any `step`) changes nothing and does not panic, on
+every path (the slice it builds has a zero extent; `Contiguous()` is total on it). -/
+theorem apply_empty {α : Type} {h : Heap α} {a : Arr} (hr : Reach a.v) (hok : ArrOK h a) {loc : Idx} {d : Nat}
+    (step : Int) (hloc : InBounds loc a.v.dims) (hd : d < a.v.dims.length) :
+    apply h a loc (d : Int) step ([] : List α) = .ok h :=
+  apply_nil (reach_geo hr) hok step hloc hd
+
+/-- **applySlice_footprint.** `ApplySlice(loc, step, src)` — the sub-array write — for a reachable destination `a`
+and a reachable source `src`, both satisfying the window conditions, an in-bounds request
+(`SliceOK a.dims loc src.dims step`) and **source and destination in different storages (`src.sid ≠ a.sid`; the
+overlapping case is excluded: there the fast path is a `memmove` and the loop a sequential copy, which differ)**:
+on every path (Go contiguous fast path `copy(slice.Unroll(), vals.Unroll())` with either an aliasing or a gathered
+source, Go element loop, C element loop) `ApplySlice` never panics, the heap keeps its shape, and afterwards
+* for every in-bounds `i` of the source, the destination cell addressed by `loc + i ⊙ step` holds the source's element
+  `i` (as read before the call),
+* every other cell of every storage — in particular the whole source storage — is unchanged. -/
+theorem applySlice_footprint {α : Type} {h : Heap α} {a src : Arr} (hr : Reach a.v) (hok : ArrOK h a)
+    (hrs : Reach src.v) (hoks : ArrOK h src) (hdisj : src.sid ≠ a.sid) {loc : Idx} {step : Option Idx}
+    (okS : SliceOK a.v.dims loc src.v.dims (stepOr a.v.dims.length step)) :
+    ∃ h', applySlice h a loc step src = .ok h' ∧ SameShape h h' ∧
+      (∀ i, InBounds i src.v.dims → ∃ p x, a.v.index (affine loc i (stepOr a.v.dims.length step)) = .ok p ∧
+        get h src i = .ok x ∧ cell h' a.sid (a.base + p).toNat = some x) ∧
+      (∀ t q : Nat, (t ≠ a.sid ∨ ∀ i, InBounds i src.v.dims →
+          ∀ p, a.v.index (affine loc i (stepOr a.v.dims.length step)) = .ok p → q ≠ (a.base + p).toNat) →
+        cell h' t q = cell h t q) := by
+  have g := reach_geo hr
+  have gs := reach_geo hrs
+  obtain ⟨hl1, hl2, hl3⟩ := okS.lengths
+  have hsl := sliceInto_eq g loc src.v.dims step hl1 hl3
+  have gS : Geo (dstSlice a loc src.v.dims step).v := geo_slice g okS hsl
+  have okSl : ArrOK h (dstSlice a loc src.v.dims step) := ⟨hok.store, hok.base_nonneg, hok.fits, hok.cfits⟩
+  obtain ⟨vals, hv, hvl⟩ := OW.NdC02.elems_ok gs hoks
+  have hlen : (OW.NdC02.rowMajor src.v.dims).length ≤ vals.length := by
+    rw [hvl, OW.NdC02.rowMajor_length]
+  have hib : ∀ w ∈ (OW.NdC02.rowMajor src.v.dims).zip vals, InBounds w.1 (dstSlice a loc src.v.dims step).v.dims :=
+    fun w hw => OW.NdC02.rowMajor_inBounds gs.pos_dims _ (List.of_mem_zip hw).1
+  have hnd : (((OW.NdC02.rowMajor src.v.dims).zip vals).map Prod.fst).Nodup := by
+    rw [List.map_fst_zip hlen]; exact rowMajor_nodup gs.dims_ne
+  obtain ⟨h', _, rfl, hsh, hin, hout⟩ := setSeq_footprint gS okSl _ hib hnd
+  -- address of index `i` of the destination sub-array, in the parent
+  have haddr : ∀ i, InBounds i src.v.dims →
+      a.v.index (affine loc i (stepOr a.v.dims.length step)) = .ok (addr (dstSlice a loc src.v.dims step).v i) := by
+    intro i hi
+    rw [← sliceInto_index g okS hsl i hi.length]
+    exact index_addr gS i (by rw [hi.length]; exact Nat.le_refl _)
+  refine ⟨_, applySlice_eq g hok gs hoks hdisj okS hv, hsh, fun i hi => ?_, fun t q hne => ?_⟩
+  · have hk := rowMajor_getElem?_ravel gs.dims_ne hi
+    obtain ⟨x, hx, hgx⟩ := OW.NdC02.getAll_getElem hv _ i hk
+    have hm : (i, x) ∈ (OW.NdC02.rowMajor src.v.dims).zip vals :=
+      List.mem_of_getElem? (List.getElem?_zip_eq_some.mpr ⟨hk, hx⟩)
+    exact ⟨_, x, haddr i hi, hgx, hin _ hm⟩
+  · apply hout
+    rcases hne with h1 | h2
+    · exact Or.inl h1
+    · refine Or.inr (fun w hw => ?_)
+      have hi := hib w hw
+      exact h2 w.1 hi _ (haddr w.1 hi)
+
+/-- **applySlice_source_unchanged.** Under the hypotheses of `applySlice_footprint`, every element of the source reads
+the same after the call as before. -/
+theorem applySlice_source_unchanged {α : Type} {h : Heap α} {a src : Arr} (hr : Reach a.v) (hok : ArrOK h a)
+    (hrs : Reach src.v) (hoks : ArrOK h src) (hdisj : src.sid ≠ a.sid) {loc : Idx} {step : Option Idx}
+    (okS : SliceOK a.v.dims loc src.v.dims (stepOr a.v.dims.length step)) :
+    ∃ h', applySlice h a loc step src = .ok h' ∧ ∀ i, InBounds i src.v.dims → get h' src i = get h src i := by
+  obtain ⟨h', he, hsh, _, hout⟩ := applySlice_footprint hr hok hrs hoks hdisj okS
+  refine ⟨h', he, fun i hi => ?_⟩
+  obtain ⟨x, c, gx⟩ := get_addr (reach_geo hrs) hoks hi
+  obtain ⟨x', c', gx'⟩ := get_addr (reach_geo hrs) (hoks.sameShape hsh) hi
+  rw [hout _ _ (Or.inl hdisj), c] at c'
+  injection c' with c'
+  rw [gx, gx', c']
+
+/-- **copyFrom_footprint.** `CopyFrom(other)` for two reachable arrays of the same shape in different storages
+(**overlapping storages excluded by hypothesis**): never panics, keeps the heap's shape, afterwards element `i` of
+the destination's storage cell (`base + Index_a(i)`) holds element `i` of `other` for every in-bounds `i`, and every
+other cell of every storage (in particular all of `other`'s storage) is unchanged. -/
+theorem copyFrom_footprint {α : Type} {h : Heap α} {a src : Arr} (hr : Reach a.v) (hok : ArrOK h a)
+    (hrs : Reach src.v) (hoks : ArrOK h src) (hdisj : src.sid ≠ a.sid) (hshape : src.v.dims = a.v.dims) :
+    ∃ h', copyFrom h a src = .ok h' ∧ SameShape h h' ∧
+      (∀ i, InBounds i a.v.dims → ∃ p x, a.v.index i = .ok p ∧ get h src i = .ok x ∧
+        cell h' a.sid (a.base + p).toNat = some x) ∧
+      (∀ t q : Nat, (t ≠ a.sid ∨ ∀ i, InBounds i a.v.dims → ∀ p, a.v.index i = .ok p → q ≠ (a.base + p).toNat) →
+        cell h' t q = cell h t q) := by
+  have g := reach_geo hr
+  have okS : SliceOK a.v.dims (a.v.newIndex 0) src.v.dims (stepOr a.v.dims.length none) := by
+    rw [hshape]; exact sliceOK_zero_ones a.v.dims g.pos_dims
+  have haff : ∀ i : Idx, i.length = a.v.dims.length →
+      affine (a.v.newIndex 0) i (stepOr a.v.dims.length none) = i := by
+    intro i hi
+    simp only [View.newIndex, View.ndims, stepOr, ← hi]
+    clear hi
+    induction i with
+    | nil => simp [affine]
+    | cons x xs ih => simp [uniform_succ, ih]
+  obtain ⟨h', he, hsh, hin, hout⟩ := applySlice_footprint hr hok hrs hoks hdisj okS
+  refine ⟨h', he, hsh, fun i hi => ?_, fun t q hne => ?_⟩
+  · obtain ⟨p, x, h1, h2, h3⟩ := hin i (by rw [hshape]; exact hi)
+    rw [haff i hi.length] at h1
+    exact ⟨p, x, h1, h2, h3⟩
+  · apply hout
+    rcases hne with h1 | h2
+    · exact Or.inl h1
+    · refine Or.inr (fun i hi p hp => ?_)
+      rw [hshape] at hi
+      rw [haff i hi.length] at hp
+      exact h2 i hi p hp
+
 /-! ### T4 — a write is visible through every overlapping view -/
 
 /-- **write_visible.** After `Set(loc, x)` through view `a`, `Get(j)` through ANY reachable array `b` on the same
@@ -286,7 +404,48 @@ theorem write_visible_self {α : Type} {h : Heap α} {a : Arr} (ha : Reach a.v) 
       exact e (index_inj ha hj hloc (by rw [h2, h3]))
     simp [e, this]
 
-/-! ### window conditions of the constructors -/
+/-- **interleaved_writes_visible.** All interleavings of reads and writes through any views: after ANY sequence of
+`Set`s, each through its own reachable array (any chain of slices, any storage, either back-end) at an in-bounds
+index, nothing has panicked, the heap has kept its shape (so every array keeps its window conditions), and a `Get`
+through ANY reachable array `b` at an in-bounds `j` returns the value of the LAST write of the sequence that addressed
+the same storage cell (`sameCell`: same storage and `b.base + Index_b(j) = a.base + Index_a(loc)`), or — if there is
+none — what it returned before the sequence. Reads do not change the heap, so this covers reads placed after every
+prefix of the writes. -/
+theorem interleaved_writes_visible {α : Type} (ops : List (WriteOp α)) (h : Heap α)
+    (hops : ∀ op ∈ ops, Reach op.arr.v ∧ ArrOK h op.arr ∧ InBounds op.loc op.arr.v.dims) :
+    ∃ h', setMany h ops = .ok h' ∧ SameShape h h' ∧
+      ∀ (b : Arr) (j : Idx), Reach b.v → ArrOK h b → InBounds j b.v.dims →
+        get h' b j = readBack ops b j (get h b j) := by
+  obtain ⟨h', h1, h2, h3⟩ := setMany_readBack ops h (fun op ho =>
+    let ⟨r, ok, ib⟩ := hops op ho
+    ⟨reach_geo r, ok, ib⟩)
+  exact ⟨h', h1, h2, fun b j rb okb hj => h3 b j (reach_geo rb) okb hj⟩
+
+/-- the address used by `sameCell` is the one `Index` returns -/
+theorem sameCell_iff {α : Type} (op : WriteOp α) (b : Arr) (j : Idx) (ha : Reach op.arr.v) (hb : Reach b.v)
+    (hloc : InBounds op.loc op.arr.v.dims) (hj : InBounds j b.v.dims) :
+    sameCell op b j ↔ b.sid = op.arr.sid ∧
+      ∃ pa pb, op.arr.v.index op.loc = .ok pa ∧ b.v.index j = .ok pb ∧ b.base + pb = op.arr.base + pa := by
+  have e1 := index_addr (reach_geo ha) op.loc (by rw [hloc.length])
+  have e2 := index_addr (reach_geo hb) j (by rw [hj.length])
+  constructor
+  · rintro ⟨h1, h2⟩; exact ⟨h1, _, _, e1, e2, h2⟩
+  · rintro ⟨h1, pa, pb, h2, h3, h4⟩
+    rw [e1] at h2; rw [e2] at h3
+    injection h2 with h2; injection h3 with h3
+    subst h2 h3
+    exact ⟨h1, h4⟩
+
+/-! ### window conditions: established by the constructors, preserved by every operation -/
+
+/-- **window_conditions_preserved.** The window conditions `ArrOK` of an array depend on the heap only through its
+shape (number and lengths of storages): they are preserved by `Slice` (same heap, new view), and — for every array —
+by any heap change that keeps the shape, which `Set` always does (`set_preserves`) and `Apply`, `ApplySlice`,
+`CopyFrom` do under the hypotheses of their footprint theorems (`SameShape` is part of each conclusion). -/
+theorem window_conditions_preserved {α : Type} {h h' : Heap α} {a b : Arr} {loc dims : Idx} {step : Option Idx} :
+    (ArrOK h a → slice a loc dims step = .ok b → ArrOK h b) ∧ (SameShape h h' → ArrOK h a → ArrOK h' a) :=
+  ⟨fun ok hs => ok.slice hs, fun s ok => ok.sameShape s⟩
+
 
 /-- **constructors_ok.** The arrays made by `NewArray`, `arrayFromSlice` (Go back-end) and `New<T>CArray` (C back-end)
 on a non-empty shape with extents ≥ 1 are reachable roots satisfying the window conditions (for the two `from…`
@@ -386,6 +545,99 @@ example : ∃ r w1 w2, View.root [4, 6] = .ok r ∧ r.sliceInto [1, 0] [2, 3] (s
     w2.index [1, 1] = .ok 16 ∧ r.index [2, 4] = .ok 16 ∧
     chainIndex 2 [([1, 0], [2, 3], some [1, 2]), ([0, 1], [2, 2], none)] [1, 1] = [2, 4] :=
   ⟨_, _, _, rfl, rfl, rfl, by simp [stepOr], by simp [stepOr, uniform], by decide, by decide, by decide⟩
+
+/-- `interleaved_writes_visible` instantiated: three writes through three different views of one storage; position 11
+is written twice (through `s2[1]` then through `s1[5]`) — every view reads the last value -/
+def ops3 : List (WriteOp Int) := [⟨s2, [1], 99⟩, ⟨s1, [5], 77⟩, ⟨a24, [3], 55⟩]
+example : ∃ h', setMany h24 ops3 = .ok h' ∧ SameShape h24 h' ∧
+    ∀ (b : Arr) (j : Idx), Reach b.v → ArrOK h24 b → InBounds j b.v.dims →
+      get h' b j = readBack ops3 b j (get h24 b j) :=
+  interleaved_writes_visible ops3 h24 (by
+    intro op ho
+    simp only [ops3, List.mem_cons, List.not_mem_nil, or_false] at ho
+    rcases ho with rfl | rfl | rfl
+    · exact ⟨reach_s2, arrOK_s2, by simp [s2]⟩
+    · exact ⟨reach_s1, arrOK_s1, by simp [s1]⟩
+    · exact ⟨reach_a24, arrOK_a24, by simp [a24, rootView]⟩)
+example : ∃ h', setMany h24 ops3 = .ok h' ∧ get h' a24 [11] = .ok 77 ∧ get h' s2 [1] = .ok 77 ∧
+    get h' s1 [1] = .ok 55 ∧ get h' s1 [4] = .ok 9 ∧
+    readBack ops3 s2 [1] (get h24 s2 [1]) = .ok 77 ∧ readBack ops3 s1 [4] (get h24 s1 [4]) = .ok 9 :=
+  ⟨_, rfl, by decide⟩
+
+/-! #### bulk writes -/
+
+/-- a `4 × 6` array of zeros in storage 0, and a `2 × 3` source `[[1,2,3],[4,5,6]]` in storage 1 -/
+def hB : Heap Int := [List.replicate 24 0, [1, 2, 3, 4, 5, 6]]
+def a46 : Arr := ⟨rootView [4, 6] 0, 0, 0, 24, false⟩
+def c46 : Arr := { a46 with isC := true }
+def src23 : Arr := ⟨rootView [2, 3] 0, 1, 0, 6, false⟩
+
+theorem reach_a46 : Reach a46.v := .root (dims := [4, 6]) (by simp) (by simp [Pos]) rfl
+theorem reach_src23 : Reach src23.v := .root (dims := [2, 3]) (by simp) (by simp [Pos]) rfl
+theorem arrOK_a46 : ArrOK hB a46 := ⟨⟨_, rfl, by decide⟩, by decide, by decide, by decide⟩
+theorem arrOK_c46 : ArrOK hB c46 := ⟨⟨_, rfl, by decide⟩, by decide, by decide, by decide⟩
+theorem arrOK_src23 : ArrOK hB src23 := ⟨⟨_, rfl, by decide⟩, by decide, by decide, by decide⟩
+
+/-- `apply_footprint` / `apply_paths_agree` instantiated: a stepped run along the last axis (loop path), a unit-step run
+along the last axis (contiguous fast path) and a run along the first axis; Go and C back-ends give the same heap -/
+example : ∃ h', apply hB a46 [1, 1] (1 : Nat) 2 [7, 8, 9] = .ok h' ∧ SameShape hB h' :=
+  let ⟨h', e, s, _⟩ := apply_footprint (l := 1) (D := 6) reach_a46 arrOK_a46 (by simp [a46, rootView]) rfl rfl
+    (by simp) (by decide) (by decide)
+  ⟨h', e, s⟩
+example : apply hB a46 [1, 1] 1 2 [7, 8, 9] =
+    .ok [[0,0,0,0,0,0, 0,7,0,8,0,9, 0,0,0,0,0,0, 0,0,0,0,0,0], [1, 2, 3, 4, 5, 6]] ∧
+    apply hB a46 [2, 1] 1 1 [7, 8, 9] =
+    .ok [[0,0,0,0,0,0, 0,0,0,0,0,0, 0,7,8,9,0,0, 0,0,0,0,0,0], [1, 2, 3, 4, 5, 6]] ∧
+    apply hB a46 [0, 2] 0 1 [7, 8, 9, 6] =
+    .ok [[0,0,7,0,0,0, 0,0,8,0,0,0, 0,0,9,0,0,0, 0,0,6,0,0,0], [1, 2, 3, 4, 5, 6]] ∧
+    apply hB c46 [1, 1] 1 2 [7, 8, 9] = apply hB a46 [1, 1] 1 2 [7, 8, 9] ∧
+    apply hB c46 [2, 1] 1 1 [7, 8, 9] = apply hB a46 [2, 1] 1 1 [7, 8, 9] := by decide
+
+/-- the hypothesis `1 ≤ step` of `apply_paths_agree` is needed: for `step = -1` (or `0`) `Contiguous()` only tests
+`Step > 1`, so the Go back-end takes the fast path and writes FORWARD from `loc`, while the element loop (C back-end)
+writes backward (or, for `step = 0`, repeatedly at `loc`). Outside the property's quantifier (steps ≥ 1). -/
+example : apply h24 a24 [5] 0 (-1) [100, 101, 102] =
+      .ok [((((List.range 24).map Int.ofNat).set 5 100).set 6 101).set 7 102] ∧
+    apply h24 { a24 with isC := true } [5] 0 (-1) [100, 101, 102] =
+      .ok [((((List.range 24).map Int.ofNat).set 5 100).set 4 101).set 3 102] := by decide
+
+/-- `applySlice_footprint` instantiated: the `2 × 3` source written at `loc = [1,0]`, `step = [2,2]` lands at
+`(1,0),(1,2),(1,4),(3,0),(3,2),(3,4)`; with `step = nil` at `loc = [2,3]` it is contiguous row by row only (loop path);
+Go and C back-ends agree; the source storage is untouched -/
+theorem okS_B : SliceOK a46.v.dims [1, 0] src23.v.dims (stepOr a46.v.dims.length (some [2, 2])) := by
+  simp [a46, src23, rootView, stepOr]
+example : ∃ h', applySlice hB a46 [1, 0] (some [2, 2]) src23 = .ok h' ∧ SameShape hB h' :=
+  let ⟨h', e, s, _⟩ := applySlice_footprint reach_a46 arrOK_a46 reach_src23 arrOK_src23 (by decide) okS_B
+  ⟨h', e, s⟩
+example : applySlice hB a46 [1, 0] (some [2, 2]) src23 =
+    .ok [[0,0,0,0,0,0, 1,0,2,0,3,0, 0,0,0,0,0,0, 4,0,5,0,6,0], [1, 2, 3, 4, 5, 6]] ∧
+    applySlice hB a46 [2, 3] none src23 =
+    .ok [[0,0,0,0,0,0, 0,0,0,0,0,0, 0,0,0,1,2,3, 0,0,0,4,5,6], [1, 2, 3, 4, 5, 6]] ∧
+    applySlice hB c46 [1, 0] (some [2, 2]) src23 = applySlice hB a46 [1, 0] (some [2, 2]) src23 ∧
+    applySlice hB c46 [2, 3] none src23 = applySlice hB a46 [2, 3] none src23 := by decide
+
+/-- the fast path of `ApplySlice` (destination contiguous: a full-width block of rows) with a contiguous (aliased) and
+with a gathered source: `[4,6]` ← rows 1..2 from a `2 × 6` source -/
+example : let hS : Heap Int := [List.replicate 24 0, (List.range 12).map Int.ofNat]
+    let s26 : Arr := ⟨rootView [2, 6] 0, 1, 0, 12, false⟩
+    applySlice hS a46 [1, 0] none s26 =
+      .ok [[0,0,0,0,0,0, 0,1,2,3,4,5, 6,7,8,9,10,11, 0,0,0,0,0,0], (List.range 12).map Int.ofNat] ∧
+    applySlice hS c46 [1, 0] none s26 = applySlice hS a46 [1, 0] none s26 ∧
+    applySlice hS a46 [1, 0] none { s26 with isC := true } = applySlice hS a46 [1, 0] none s26 := by decide
+
+/-- `copyFrom_footprint` instantiated on two `2 × 3` arrays in different storages -/
+example : let hC : Heap Int := [List.replicate 6 0, [1, 2, 3, 4, 5, 6]]
+    let d23 : Arr := ⟨rootView [2, 3] 0, 0, 0, 6, false⟩
+    copyFrom hC d23 src23 = .ok [[1, 2, 3, 4, 5, 6], [1, 2, 3, 4, 5, 6]] := by decide
+
+/-- the exclusion `src.sid ≠ a.sid` of `applySlice_footprint` is needed: copying elements `0..2` of a storage onto
+elements `1..3` of the SAME storage, the Go fast path (`copy` = memmove) gives `0 0 1 2`, the element loop of the C
+back-end gives `0 0 0 0` -/
+example : let a : Arr := ⟨rootView [6] 0, 0, 0, 24, false⟩
+    let s : Arr := ⟨⟨[6], [3], 0, [1], [1], [1]⟩, 0, 0, 24, false⟩
+    (do let h' ← applySlice h24 a [1] none s; (List.range 4).mapM (fun k => get h' a [Int.ofNat k])) = .ok [0, 0, 1, 2] ∧
+    (do let h' ← applySlice h24 { a with isC := true } [1] none s
+        (List.range 4).mapM (fun k => get h' a [Int.ofNat k])) = .ok [0, 0, 0, 0] := by decide
 
 end Examples
 
